@@ -84,11 +84,11 @@ def patterns(fmt, rng, quick):
     full = mant_boundary(mw)
     out = []
     for e in range(emax + 1):
-        ms = full if (e in edge or not quick) else mant_small(mw, rng)
+        ms = full if (e in edge or not quick or fmt == 'sp') else mant_small(mw, rng)
         for m in ms:
             for s in (0, 1):
                 out.append((s << (ew + mw)) | (e << mw) | m)
-    for _ in range(2000 if quick else 50000):
+    for _ in range(10000 if quick else 300000):
         out.append(rng.getrandbits(1 + ew + mw))
     return out
 
@@ -133,7 +133,7 @@ def encode_floats(fmt, rng, quick):
     xs += [1.5 * 2.0 ** 128, -1.25 * 2.0 ** 128, nextafter(2.0 ** 129, 0.0), 2.0 ** 129, 1.0000001 * 2.0 ** 128,
            2.0 ** -150, nextafter(2.0 ** -150, 1.0), nextafter(2.0 ** -150, 0.0), 2.0 ** -151, 1.5 * 2.0 ** -149, 2.0 ** -149, 3.0 * 2.0 ** -150,
            2.0 ** 128, nextafter(2.0 ** 128, 0.0), 2.0 ** 127 * (2 - 2.0 ** -24), nextafter(2.0 ** 127 * (2 - 2.0 ** -24), 0.0), 2.0 ** 200, 1e39, -1e39]
-    for _ in range(300 if quick else 20000):
+    for _ in range(2000 if quick else 100000):
         xs.append(rng.uniform(-1, 1) * 10.0 ** rng.randint(-46, 39))
     return xs
 
@@ -150,7 +150,7 @@ def arith_pool(rng, quick):
     pool += [['f', x.hex()] for x in (0.0, -0.0, 1.0, -1.0, 0.1, -0.3, 3.0, 2.9999999999998197, 3.0000000000001803, 1e308, -1e-308, 123456789.125)]
     pool += [['semp', 1, 0, 12, 4], ['semp', -1, 3, 1, 1024], ['semp', 1, -2000, 12345678901234567890, 1 << 70], ['semp', -1, 1500, 7, 1],
              ['semp', 1, 0, 0, 8], ['semp', -1, 5, 0, 1], ['semp', 1, -3, (1 << 90) + 1, 1 << 90], ['semp', -1, 0, 1, 1 << 100]]
-    n = 6 if quick else 60
+    n = 10 if quick else 90
     for _ in range(n):
         pool.append(['sp', rng.getrandbits(32)]); pool.append(['dp', rng.getrandbits(64)])
         pool.append(['semp', rng.choice((1, -1)), rng.randint(-50, 50), rng.getrandbits(rng.randint(1, 80)), 1 << rng.randint(0, 80)])
